@@ -238,9 +238,7 @@ Qed.
 Lemma time_rebuild_id x : time_rebuild x = x.
 Proof. destruct x. reflexivity. Qed.
 
-(* what the current code computes: the difference of the whole-second parts *)
-Lemma diff_native_spec a b :
-  time_diff_native a b = (tod b - t_microsecond b) - (tod a - t_microsecond a).
+Lemma diff_native_spec a b : time_diff_native a b = tod b - tod a.
 Proof.
   unfold time_diff_native, py_Time_diff_us, tod, C_SECS_PER_HOUR, C_SECS_PER_MIN, C_USECS_PER_SEC.
   rewrite time_rebuild_id. lia.
@@ -248,89 +246,56 @@ Qed.
 
 Definition signed_or_abs (abs : bool) (d : Z) : Z := if abs then Z.abs d else d.
 
-Lemma diff_total_spec a b abs :
-  time_diff_total a b abs = signed_or_abs abs ((tod b - t_microsecond b) - (tod a - t_microsecond a)).
+(* diff: the signed microsecond difference of the two times of day; its magnitude with abs *)
+Lemma diff_total_spec a b abs : time_diff_total a b abs = signed_or_abs abs (tod b - tod a).
 Proof. unfold time_diff_total. rewrite diff_native_spec. reflexivity. Qed.
-
-(* the property as stated holds exactly when the two microsecond fields coincide *)
-Lemma diff_exact_iff a b : time_diff_total a b false = tod b - tod a <-> t_microsecond a = t_microsecond b.
-Proof. rewrite diff_total_spec. unfold signed_or_abs. lia. Qed.
-
-Lemma diff_spec_partial a b abs : t_microsecond a = t_microsecond b ->
-  time_diff_total a b abs = signed_or_abs abs (tod b - tod a).
-Proof. intros H. rewrite diff_total_spec. f_equal. lia. Qed.
-
-Lemma diff_spec_refuted :
-  exists a b, valid_time a = true /\ valid_time b = true /\ time_diff_total a b false <> tod b - tod a /\
-              time_diff_total a b true = 0 /\ tod b - tod a = 400.
-Proof. exists (mkT 1 2 3 500), (mkT 1 2 3 900). repeat split; vm_compute; congruence. Qed.
 
 Lemma diff_abs_nonneg a b : 0 <= time_diff_total a b true.
 Proof. unfold time_diff_total. lia. Qed.
 
-Lemma diff_error_below_one_second a b abs : valid_time a = true -> valid_time b = true ->
-  Z.abs (time_diff_total a b abs - signed_or_abs abs (tod b - tod a)) < 1000000.
+Lemma diff_antisym a b : time_diff_total a b false = - time_diff_total b a false.
+Proof. rewrite !diff_total_spec. unfold signed_or_abs. lia. Qed.
+
+Lemma diff_range a b abs : valid_time a = true -> valid_time b = true -> Z.abs (time_diff_total a b abs) < us_day.
 Proof.
-  intros Ha Hb. apply valid_time_bounds in Ha, Hb. rewrite diff_total_spec. unfold signed_or_abs. destruct abs; lia.
+  intros Ha Hb. apply tod_range in Ha, Hb. rewrite diff_total_spec. unfold signed_or_abs, us_day in *. destruct abs; lia.
 Qed.
 
 Lemma op_sub_spec self other :
-  time_op_sub self other = (tod self - t_microsecond self) - (tod other - t_microsecond other) /\
-  time_op_rsub self other = (tod other - t_microsecond other) - (tod self - t_microsecond self).
+  time_op_sub self other = tod self - tod other /\ time_op_rsub self other = tod other - tod self.
 Proof.
   unfold time_op_rsub, time_op_sub. rewrite !time_rebuild_id, !diff_total_spec. unfold signed_or_abs. lia.
 Qed.
 
-Lemma op_sub_partial self other : t_microsecond self = t_microsecond other ->
-  time_op_sub self other = tod self - tod other /\ time_op_rsub self other = tod other - tod self.
-Proof. intros H. destruct (op_sub_spec self other) as [-> ->]. lia. Qed.
-
 (* ---------------------------------------------------------------- closest / farthest *)
-Definition whole_seconds (x : ptime) : Z := (t_hour x * 60 + t_minute x) * 60 + t_second x.
-
-Lemma abs_diff_in_seconds_spec t x : abs_diff_in_seconds t x = Z.abs (whole_seconds x - whole_seconds t).
-Proof.
-  unfold abs_diff_in_seconds, py_Time_diff_us, whole_seconds, C_SECS_PER_HOUR, C_SECS_PER_MIN, C_USECS_PER_SEC. lia.
-Qed.
-
-(* what the current code does: compares whole seconds of the whole-second parts, ties go to the second argument *)
-Lemma closest_model_spec t a b :
-  time_closest t a b = (if Z.abs (whole_seconds a - whole_seconds t) <? Z.abs (whole_seconds b - whole_seconds t) then a else b) /\
-  time_farthest t a b = (if Z.abs (whole_seconds a - whole_seconds t) >? Z.abs (whole_seconds b - whole_seconds t) then a else b).
-Proof.
-  unfold time_closest, time_farthest, py_Time_closest, py_Time_farthest. cbv zeta.
-  rewrite !time_rebuild_id, !abs_diff_in_seconds_spec. auto.
-Qed.
-
-Lemma closest_returns_argument t a b :
-  (time_closest t a b = a \/ time_closest t a b = b) /\ (time_farthest t a b = a \/ time_farthest t a b = b).
-Proof. destruct (closest_model_spec t a b) as [-> ->]. split; split_ifs; auto. Qed.
-
 Definition dist (t x : ptime) : Z := Z.abs (tod x - tod t).
 
-Lemma closest_by_distance_partial t a b :
-  t_microsecond a = t_microsecond t -> t_microsecond b = t_microsecond t ->
+Lemma abs_diff_total_us_spec t x : abs_diff_total_us t x = dist t x.
+Proof.
+  unfold abs_diff_total_us, dist, py_Time_diff_us, tod, C_SECS_PER_HOUR, C_SECS_PER_MIN, C_USECS_PER_SEC. f_equal. lia.
+Qed.
+
+(* closest/farthest choose by the microsecond distance; ties go to the second argument *)
+Lemma closest_by_distance t a b :
   time_closest t a b = (if dist t a <? dist t b then a else b) /\
   time_farthest t a b = (if dist t a >? dist t b then a else b).
 Proof.
-  intros Ha Hb. destruct (closest_model_spec t a b) as [-> ->]. unfold dist, tod, whole_seconds. rewrite Ha, Hb.
-  split; split_ifs; try reflexivity; lia.
+  unfold time_closest, time_farthest, py_Time_closest, py_Time_farthest. cbv zeta.
+  rewrite !time_rebuild_id, !abs_diff_total_us_spec. auto.
 Qed.
 
-Lemma closest_by_distance_refuted :
-  exists t a b, valid_time t = true /\ valid_time a = true /\ valid_time b = true /\
-    dist t a < dist t b /\ time_closest t a b = b /\ time_farthest t b a = a /\ a <> b.
-Proof.
-  exists (mkT 0 0 0 0), (mkT 0 0 0 100), (mkT 0 0 0 900). repeat split; try (vm_compute; congruence).
-Qed.
+Lemma closest_is_nearest t a b :
+  dist t (time_closest t a b) = Z.min (dist t a) (dist t b) /\ dist t (time_farthest t a b) = Z.max (dist t a) (dist t b).
+Proof. destruct (closest_by_distance t a b) as [-> ->]. split; split_ifs; lia. Qed.
 
-(* not only ties: 00:00:01 is 1 us from 00:00:00.999999 and 00:00:00 is 999999 us from it, yet the latter is "closest" *)
-Lemma closest_by_distance_refuted_across_seconds :
-  exists t a b, valid_time t = true /\ valid_time a = true /\ valid_time b = true /\
-    dist t a < dist t b /\ time_closest t a b = b /\ a <> b.
-Proof.
-  exists (mkT 0 0 0 999999), (mkT 0 0 1 0), (mkT 0 0 0 0). repeat split; try (vm_compute; congruence).
-Qed.
+Lemma closest_returns_argument t a b :
+  (time_closest t a b = a \/ time_closest t a b = b) /\ (time_farthest t a b = a \/ time_farthest t a b = b).
+Proof. destruct (closest_by_distance t a b) as [-> ->]. split; split_ifs; auto. Qed.
+
+Example diff_example :
+  time_diff_total (mkT 1 2 3 500) (mkT 1 2 3 900) true = 400 /\ time_diff_total (mkT 1 2 3 900) (mkT 1 2 3 500) false = -400 /\
+  time_closest (mkT 0 0 0 0) (mkT 0 0 0 100) (mkT 0 0 0 900) = mkT 0 0 0 100.
+Proof. repeat split; vm_compute; reflexivity. Qed.
 
 (* ---------------------------------------------------------------- the hypotheses used above are satisfiable *)
 Example valid_time_example : valid_time (mkT 23 59 59 999999) = true /\ valid_time (mkT 0 0 0 0) = true.
